@@ -122,7 +122,9 @@ fn space(tier: Tier) -> &'static Space {
         let mut d1: Vec<V> = l.clone();
         d1.extend(v1w2.iter().cloned());
         values.extend(composites(&d1, 1).into_iter().skip(3));
-        if tier == Tier::Thorough {
+        // (both tiers explore the same space: it takes seconds)
+        let _ = tier;
+        {
             // depth 2, width 2 over (leaves + depth-1 width<=1)
             let mut small: Vec<V> = l.clone();
             small.extend(composites(&l, 1));
@@ -601,7 +603,7 @@ impl Prop for C20 {
             rule: format!(
                 "every interpreter::Value over leaves {{9 numbers incl. -0.0, two NaN payloads, +-inf, MAX, 5e-324; 5 strings incl. empty, non-ASCII, NUL, 4 KiB; Unit; Code; and each unrepresentable kind Closure, Fixpoint, ExternalFn, Store, ConstructorFn, ErrorV}} combined by Array/Tuple/Record(keys \"\",a,é)/TaggedUnion(tags 0,MAX): depth 1 width<=2, depth 2 width<=1{}: {nv} values through serialize_value/deserialize_value; \
                  plus {nl} argument lists of length 0..2 ({na} element values x {} types incl. Intermediate and TypeScheme) through serialize_macro_args/deserialize_macro_args; plus every type of the menu and every value again through their own serde implementations (bincode), where Intermediate/TypeScheme resp. Closure/ExternalFn/Store must be refused. Index = position in the enumeration (injective).",
-                if tier == Tier::Thorough { ", depth 2 width 2 over small children, depth 3 width 1" } else { "" },
+                ", depth 2 width 2 over small children, depth 3 width 1",
                 sp.n_types
             ),
             assumptions: vec![
